@@ -55,7 +55,8 @@ func (f *Frame) siteAsserts(instr ssa.Instruction, cc *ssa.CallCommon, calleeNam
 		if top.callSnaps == nil {
 			top.callSnaps = map[string]*State{}
 		}
-		if _, seen := top.callSnaps[want]; !seen {
+		_, seenSnap := top.callSnaps[want]
+		if !seenSnap {
 			top.callSnaps[want] = st.clone()
 		}
 		env := f.funcEnv(st, top.entry)
@@ -78,6 +79,19 @@ func (f *Frame) siteAsserts(instr ssa.Instruction, cc *ssa.CallCommon, calleeNam
 		}
 		for j := 0; j < sig.Params().Len() && j+off < len(args); j++ {
 			env.vars[fmt.Sprintf("arg%d", j)] = env.sv(args[j+off], sig.Params().At(j).Type())
+		}
+		if !seenSnap {
+			// atcall(anchor, e) may mention the arguments of that call
+			if top.callArgs == nil {
+				top.callArgs = map[string]map[string]sval{}
+			}
+			m := map[string]sval{}
+			for k, v := range env.vars {
+				if k == "recv" || strings.HasPrefix(k, "arg") {
+					m[k] = v
+				}
+			}
+			top.callArgs[want] = m
 		}
 		// outsideLoops: the call site is executed at most once per activation
 		inLoop := false
